@@ -123,10 +123,67 @@ pub struct SimGroupStorage {
     pub backend: Backend,
     pub retention: u64,
     pub faults: Faults,
+    /// control of faults inside the SQLite provider (only used with the plain Sql backend)
+    pub sqlctl: Arc<SqlFaultCtl>,
+}
+
+/// S-SQL-INNER: a fault *inside* the SQLite provider's write. The connection's authorizer (called by SQLite whenever
+/// a statement is prepared) denies the k-th row-changing action of an armed write: the statement fails the way a
+/// full disk or an I/O error fails it - after the statements before it have run.
+#[derive(Default, Debug)]
+pub struct SqlFaultCtl {
+    pub armed: std::sync::atomic::AtomicBool,
+    pub count: std::sync::atomic::AtomicU32,
+    pub fail_at: std::sync::atomic::AtomicU32,
+    pub fired: std::sync::atomic::AtomicU32,
+}
+
+impl SqlFaultCtl {
+    pub fn arm(&self, k: u32) {
+        use std::sync::atomic::Ordering::SeqCst;
+        self.count.store(0, SeqCst);
+        self.fired.store(0, SeqCst);
+        self.fail_at.store(k, SeqCst);
+        self.armed.store(true, SeqCst);
+    }
+    /// (row-changing actions seen, faults fired)
+    pub fn disarm(&self) -> (u32, u32) {
+        use std::sync::atomic::Ordering::SeqCst;
+        self.armed.store(false, SeqCst);
+        (self.count.load(SeqCst), self.fired.load(SeqCst))
+    }
+}
+
+struct FaultyMemory(Arc<SqlFaultCtl>);
+
+impl mls_rs_provider_sqlite::connection_strategy::ConnectionStrategy for FaultyMemory {
+    fn make_connection(&self) -> Result<rusqlite::Connection, mls_rs_provider_sqlite::SqLiteDataStorageError> {
+        use rusqlite::hooks::{AuthAction, Authorization};
+        use std::sync::atomic::Ordering::SeqCst;
+        let c = rusqlite::Connection::open_in_memory()
+            .map_err(|e| mls_rs_provider_sqlite::SqLiteDataStorageError::SqlEngineError(e.into()))?;
+        let ctl = self.0.clone();
+        c.authorizer(Some(move |ctx: rusqlite::hooks::AuthContext<'_>| {
+            let write = matches!(ctx.action, AuthAction::Insert { .. } | AuthAction::Update { .. } | AuthAction::Delete { .. });
+            if write && ctl.armed.load(SeqCst) {
+                let i = ctl.count.fetch_add(1, SeqCst);
+                if i == ctl.fail_at.load(SeqCst) {
+                    ctl.fired.fetch_add(1, SeqCst);
+                    return Authorization::Deny;
+                }
+            }
+            Authorization::Allow
+        }));
+        Ok(c)
+    }
 }
 
 fn new_sql(retention: u64) -> SqLiteGroupStateStorage {
-    SqLiteDataStorageEngine::new(MemoryStrategy)
+    new_sql_ctl(retention, Arc::new(SqlFaultCtl::default()))
+}
+
+fn new_sql_ctl(retention: u64, ctl: Arc<SqlFaultCtl>) -> SqLiteGroupStateStorage {
+    SqLiteDataStorageEngine::new(FaultyMemory(ctl))
         .expect("sqlite engine")
         .group_state_storage()
         .expect("sqlite group storage")
@@ -175,15 +232,17 @@ fn view_of<S: GroupStateStorage>(s: &S, gid: &[u8]) -> Result<StoredView, SimErr
 
 impl SimGroupStorage {
     pub fn new(kind: StorageKind, retention: u64, faults: Faults) -> Self {
+        let sqlctl = Arc::new(SqlFaultCtl::default());
         let backend = match kind {
             StorageKind::Mem => Backend::Mem(new_mem(retention)),
-            StorageKind::Sql => Backend::Sql(new_sql(retention)),
+            StorageKind::Sql => Backend::Sql(new_sql_ctl(retention, sqlctl.clone())),
             StorageKind::Mirror => Backend::Mirror(new_mem(retention), new_sql(retention)),
         };
         SimGroupStorage {
             backend,
             retention,
             faults,
+            sqlctl,
         }
     }
 
